@@ -16,12 +16,17 @@ namespace MidnightZK.C05
 
 /-- Name of a cell as far as the foreign chip's own regions are concerned: `a r i` limb `i` of the
 `r`-th group of freshly assigned range-checked limbs (`assign`, `assign_mul`), `n r i` output limb
-`i` of the `r`-th "Foreign norm" region, `k v` a fixed cell holding `v`, `o` any other cell
-(computed by a native instruction). -/
+`i` of the `r`-th "Foreign norm" region, `k v` a fixed cell holding `v`, `l terms c` the result
+cell of a single-row native `linear_combination(terms, c)` (the lazy `add` / `sub` / `neg` /
+`mul_by_constant` and `assigned_field_from_limb` compute every limb that way): the coefficient and
+the name (at depth 0: creation-site names, `o` for anything computed) of the cell wired into every
+term slot, and the constant — read back from the defining row of the real synthesis; `o` any other
+cell (computed by another native instruction). -/
 inductive CellName where
   | a (r i : Nat)
   | n (r i : Nat)
   | k (v : Int)
+  | l (terms : List (Int × String)) (c : Int)
   | o
   deriving Repr, DecidableEq
 
@@ -29,7 +34,27 @@ def CellName.fmt : CellName → String
   | .a r i => s!"a{r}.{i}"
   | .n r i => s!"n{r}.{i}"
   | .k v => s!"K{v}"
+  | .l ts c =>
+    -- the order of the terms of a linear combination is immaterial: printed sorted
+    "L(" ++ "+".intercalate ((ts.map (fun t => s!"{t.1}*{t.2}")).mergeSort (fun a b => a ≤ b)) ++ s!";{c})"
   | .o => "o"
+
+/-- Name of a cell when it appears as an operand of a native row (depth 0). -/
+def CellName.inner : CellName → String
+  | .l _ _ => "o"
+  | c => c.fmt
+
+/-- The result cell of `native_gadget.linear_combination(terms, c)` (all coefficients non-zero,
+at most 4 terms: one row of the arithmetic chip). -/
+def CellName.lc (terms : List (Int × CellName)) (c : Int) : CellName :=
+  .l (terms.map (fun t => (t.1, t.2.inner))) c
+
+/-- Cells whose equality / exposure / decomposition events are reported: creation-site names. -/
+def CellName.isSite : CellName → Bool
+  | .a _ _ => true
+  | .n _ _ => true
+  | .k _ => true
+  | _ => false
 
 /-- What the foreign chip emits besides native arithmetic (the trace the harness reads back from
 the real synthesis: regions by name, copy constraints, and the bit length of every range check as
@@ -62,7 +87,7 @@ def Ev.fmt : Ev → String
       let a := p.1.fmt
       let b := p.2.fmt
       if a ≤ b then s!"{a}={b}" else s!"{b}={a}"
-    "E[" ++ ",".intercalate (ps.map one) ++ "]"
+    "E[" ++ ",".intercalate ((ps.filter (fun p => p.1.isSite && p.2.isSite)).map one) ++ "]"
   | .pub cs => s!"P[{fmtNames cs}]"
   | .dec items => "D[" ++ ",".intercalate (items.map (fun t => s!"{t.1.fmt}:{t.2.1}/{t.2.2}")) ++ "]"
 
@@ -213,27 +238,37 @@ def add (c : ChipCfg) (x y : FVar) : M FVar :=
   else if y.fixedOf = some 0 then pure x
   else
     let cs := c.lsConst 1
+    -- limb i: native `linear_combination([(1, xᵢ), (1, yᵢ)], cᵢ)`
     c.normalizeIfApproaching
       ⟨zip3 x.limbs y.limbs cs (fun a b k => a + b + k),
-       zipB3 x.bounds y.bounds cs (fun a b k => (a.1 + b.1 + k, a.2 + b.2 + k)), none, c.others⟩
+       zipB3 x.bounds y.bounds cs (fun a b k => (a.1 + b.1 + k, a.2 + b.2 + k)), none,
+       ((x.src.zip y.src).zip cs).map (fun t => CellName.lc [(1, t.1.1), (1, t.1.2)] t.2)⟩
 
 /-- `ArithInstructions::sub`. -/
 def sub (c : ChipCfg) (x y : FVar) : M FVar :=
   if y.fixedOf = some 0 then pure x
   else
     let cs := c.lsConst (-1)
+    -- limb i: native `linear_combination([(1, xᵢ), (-1, yᵢ)], cᵢ)`
     c.normalizeIfApproaching
       ⟨zip3 x.limbs y.limbs cs (fun a b k => a - b + k),
-       zipB3 x.bounds y.bounds cs (fun a b k => (a.1 - b.2 + k, a.2 - b.1 + k)), none, c.others⟩
+       zipB3 x.bounds y.bounds cs (fun a b k => (a.1 - b.2 + k, a.2 - b.1 + k)), none,
+       ((x.src.zip y.src).zip cs).map (fun t => CellName.lc [(1, t.1.1), (-1, t.1.2)] t.2)⟩
 
 /-- `ArithInstructions::neg`. -/
 def neg (c : ChipCfg) (x : FVar) : M FVar :=
   if x.fixedOf = some 0 then pure (c.assignFixed 0)
   else
     let cs := c.lsConst (-2)
+    -- limb i: native `linear_combination([(-1, xᵢ)], cᵢ)`
     c.normalizeIfApproaching
       ⟨(x.limbs.zip cs).map (fun t => -t.1 + t.2),
-       (x.bounds.zip cs).map (fun t => (-t.1.2 + t.2, -t.1.1 + t.2)), none, c.others⟩
+       (x.bounds.zip cs).map (fun t => (-t.1.2 + t.2, -t.1.1 + t.2)), none,
+       (x.src.zip cs).map (fun t => CellName.lc [(-1, t.1)] t.2)⟩
+
+/-- `native_chip.rs: const NB_PARALLEL_ADD_COLS` (a wrong value changes `fpt` lines of `addc` /
+bit conversions with three or more non-zero constant limbs). -/
+def nbParallelAddCols : Nat := 3
 
 /-- `add_constant`. -/
 def addConstant (c : ChipCfg) (x : FVar) (k : Int) : M FVar :=
@@ -241,11 +276,24 @@ def addConstant (c : ChipCfg) (x : FVar) (k : Int) : M FVar :=
   if k = 0 then pure x
   else
     let ks := (toLimbs c.L c.n k).1
-    -- native `add_constants` returns the input cell itself where the constant limb is zero
+    -- native `add_constants`: the input cell itself where the constant limb is zero; the limbs
+    -- with a non-zero constant are processed in order, in chunks of `NB_PARALLEL_ADD_COLS = 3` by
+    -- one "add_constants" row each (cells `o`), the remaining (< 3) ones by `add_constant` =
+    -- `linear_combination([(1, xᵢ)], kᵢ)`
+    let nz := (ks.filter (· ≠ 0)).length
+    let inRows := nz / nbParallelAddCols * nbParallelAddCols
+    let names := Id.run do
+      let mut out : List CellName := []
+      let mut j := 0
+      for t in x.src.zip ks do
+        if t.2 = 0 then out := out ++ [t.1]
+        else
+          out := out ++ [if j < inRows then CellName.o else CellName.lc [(1, t.1)] t.2]
+          j := j + 1
+      return out
     c.normalizeIfApproaching
       ⟨(x.limbs.zip ks).map (fun t => t.1 + t.2),
-       (x.bounds.zip ks).map (fun t => (t.1.1 + t.2, t.1.2 + t.2)), none,
-       (x.src.zip ks).map (fun t => if t.2 = 0 then t.1 else .o)⟩
+       (x.bounds.zip ks).map (fun t => (t.1.1 + t.2, t.1.2 + t.2)), none, names⟩
 
 /-- Modular inverse in the emulated (prime) field. -/
 def inv (c : ChipCfg) (v : Int) : Int := (invMod (v % c.m).toNat c.m.toNat : Nat)
@@ -284,9 +332,11 @@ def mulByConstant (c : ChipCfg) (x : FVar) (k : Int) : M FVar :=
       let x ← if x.bounds.any (fun b => decide (b.1 * k < -lim) || decide (b.2 * k + k > lim))
         then c.normalize x else pure x
       let cs := c.lsConst (k - 1)
+      -- limb i: native `linear_combination([(k, xᵢ)], cᵢ)`
       c.normalizeIfApproaching
         ⟨(x.limbs.zip cs).map (fun t => k * t.1 + t.2),
-         (x.bounds.zip cs).map (fun t => (t.1.1 * k + t.2, t.1.2 * k + t.2)), none, c.others⟩
+         (x.bounds.zip cs).map (fun t => (t.1.1 * k + t.2, t.1.2 * k + t.2)), none,
+         (x.src.zip cs).map (fun t => CellName.lc [(k, t.1)] t.2)⟩
 
 /-- `ArithInstructions::mul`. -/
 def mul (c : ChipCfg) (x y : FVar) (k : Option Int) : M FVar :=
@@ -325,8 +375,9 @@ def fromLimb (c : ChipCfg) (v : Int) : FVar :=
   let b0 := match wf with
     | b :: _ => (b.1 - 1, b.2 - 1)
     | [] => (0, 0)
+  -- least significant limb: native `add_constant(limb, -1)` = `linear_combination([(1, limb)], -1)`
   ⟨(v - 1) :: List.replicate (c.n - 1) 0, b0 :: wf.drop 1, none,
-   .o :: List.replicate (c.n - 1) (.k 0)⟩
+   CellName.lc [(1, .o)] (-1) :: List.replicate (c.n - 1) (.k 0)⟩
 
 /-- `linear_combination`. -/
 def linearCombination (c : ChipCfg) (terms : List (Int × FVar)) (k : Int) : M FVar := do
